@@ -191,6 +191,11 @@ inductive ORes (α : Type) where
   | ok (v : α)
   | fail
 
+/-- the candidate misses a registered bound (either direction) -/
+def oppViolated (x : Nat) (ms : List (Meta α)) (v : α) : Bool :=
+  (match effLower x ms with | some l => lt v l | none => false) ||
+    (match effUpper x ms with | some u => gt v u | none => false)
+
 /-- `try_metadata_precision_optimization` for a float variable (`none` = "fall back") -/
 def tryMeta (iv : FI α) (x : Nat) (ms : List (Meta α)) (isMax : Bool) : Option (ORes α) :=
   if iv.isEmpty then some .fail
@@ -206,7 +211,12 @@ def tryMeta (iv : FI α) (x : Nat) (ms : List (Meta α)) (isMax : Bool) : Option
         | none => if isFallback iv then none else some iv.min
     match cand with
     | none => none
-    | some v => if lt v iv.min || gt v iv.max then none else some (.ok v)
+    | some v =>
+      if lt v iv.min || gt v iv.max then none
+      /- a bound against the direction of optimisation has to hold as well (fix: before, only the
+         bound in the direction of optimisation was looked at) -/
+      else if oppViolated x ms v then none
+      else some (.ok v)
 
 /-- `ConstraintAwareOptimizer::{minimize,maximize}_with_constraints`: an input (see the header) -/
 def viaProp (pb : Option (α × α)) (isMax : Bool) : ORes α :=
@@ -298,7 +308,8 @@ def trySafe (m : OModel α) (pbs : List (Option (α × α))) (isMax : Bool) (x :
       | .fail =>
         match viaProp pb isMax with
         | .ok v => mkSol m x v
-        | .fail => if isMax then .declined .optimizerFailure else mkSol m x iv.min
+        /- (`try_safe_float_minimize` answered `interval.min` here before the fix) -/
+        | .fail => .declined .optimizerFailure
     else mkSol m x (if isMax then iv.max else iv.min)
   | _ => .declined .complexObjective
 
